@@ -30,6 +30,8 @@ META = {
 
 
 def run(prog, report, tier):
+    from .. import quadtree as _qt
+    _qt.check_diam(prog, report)
     quadtree.check_scalar(prog, report)
     quadtree.check_bdr_search(prog, report)
     quadtree.check_tolerances(prog, report)
